@@ -78,7 +78,9 @@ KF_EMPTY_TUPLE = "C08-empty-deps-tuple-never-fires"
 KF_NO_NAME = "C08-callback-without-name-attributeerror"
 KF_DOUBLE_UP = "C08-up-twice-deferral-released-in-handler"
 
-ALL_C = ["c0", "c1", "c2", "c3", "c4"]
+# names with underscores and one a prefix of another: listen_to_dependencies
+# has to take "_handle_<component>_<Event>" apart
+ALL_C = ["c0", "c0_x", "of_01", "c3", "c4"]
 
 
 # ---------------------------------------------------------------------------
